@@ -8,4 +8,6 @@ INIT SInit
 NEXT SNext
 VIEW SView
 ACTION_CONSTRAINT ExportTrans
+PROPERTY ModelProps
+INVARIANT ReportKeep
 CHECK_DEADLOCK FALSE
